@@ -172,6 +172,11 @@ func runC17(t *testing.T, e *worlds.Env, tier string) (bool, any) {
 					markAt[m.ID] = hc.At
 				}
 			}
+			if burstOnly && burst > 0 && tburst == 0 && e.S.CappedBy == "time" && c.Wrote > 0 && len(se.Reads) == 0 {
+				// independence (judged under C08): a byte budget per connection - every connection may use its own
+				e.S.Fail("C17/interference", "per-conn-only", "conn %d of %d: the client wrote %d bytes but not one was read within %v although the connection has a byte budget of its own (burst %d, no rate)",
+					m.ID, len(w.Clients), c.Wrote, e.S.SimElapsed, burst)
+			}
 			if !se.HasFirstRead {
 				continue
 			}
@@ -197,6 +202,22 @@ func runC17(t *testing.T, e *worlds.Env, tier string) (bool, any) {
 					if float64(cum) > bound {
 						e.S.Fail("C17/rate-exceeded", "per-conn", "conn %d: %d bytes read by T=%v after the first read; limit burst %d + %v B/s * T = %.2f",
 							m.ID, cum, r.At-t0, burst, rate, bound)
+						break
+					}
+				}
+			}
+			// independence (judged under C08): with a per-connection limit only, the wait of a read for
+			// tokens depends on this connection's own reads alone: the bucket is the connection's, its
+			// reads are sequential, so a read asking for req bytes waits at most req/rate after the
+			// previous one returned (the reader itself takes no simulated time)
+			if rate > 0 && trate == 0 && tburst == 0 && !burstOnly {
+				for i := 1; i < len(se.Reads); i++ {
+					r, p := se.Reads[i], se.Reads[i-1]
+					gap := r.CallAt - p.At
+					allow := time.Duration(float64(r.Req)/rate*float64(time.Second)) + time.Millisecond
+					if gap > allow {
+						e.S.Fail("C17/interference", "per-conn-only", "conn %d of %d: read #%d (%d bytes asked) reached the socket %v after the previous read returned; with its own bucket (rate %v B/s, burst %d) the wait for tokens is at most %v - the allowance depends on the other connections",
+							m.ID, len(w.Clients), i, r.Req, gap, rate, burst, allow)
 						break
 					}
 				}
